@@ -213,6 +213,49 @@ def short_lived_genotypes_scenario(h: Harness, rng):
         h.count(f"short-lived-genotype-streams:{name}" + (":violated" if bad else ""))
 
 
+def dsge_family_scenario(h: Harness, rng):
+    """a dynamic-SGE genotype is mapped, then serves as the parent of mutants and crossover offspring that are mapped too (programs
+    of other shapes, reading fewer or more genes of each symbol), then is mapped again: it still gives the program it gave first"""
+    C = gram.ClassSpec
+    spec = gram.Spec([C("E", True, None), C("Cond", True, None), C("Lit", False, 0, [("v", "int")]), C("Flag", False, 0, [("b", "bool")]),
+                      C("If", False, 0, [("c", ("cls", 1)), ("t", ("cls", 0)), ("e", ("cls", 0))]),
+                      C("Lt", False, 1, [("l", ("cls", 0)), ("r", ("ann", "int", ("intRange", 0, 9)))]),
+                      C("Not", False, 1, [("c", ("cls", 1))]), C("T", False, 1, []),
+                      C("Many", False, 0, [("xs", ("ann", ("list", ("cls", 0)), ("listSize", 1, 2)))])], 0, [2, 3, 4, 5, 6, 7, 8, 0, 1])
+    b = gram.build(spec)
+    g = b.extract()
+    for trial in range(h.n(12, 80)):
+        shared = NativeRandomSource(rng.randrange(10**6))
+        rep = DSGE(g, g.get_min_tree_depth() + rng.choice([2, 3]))
+        parents = [rep.create_genotype(shared) for _ in range(3)]
+        first = []
+        for ge in parents:
+            st, p = safe(lambda: rep.genotype_to_phenotype(ge))
+            first.append(repr(p) if st == "ok" else f"error:{p}")
+        bad = False
+        for k in range(h.n(12, 30)):
+            i = rng.randrange(len(parents))
+            if rng.random() < 0.6:
+                st, kids = safe(lambda: [rep.mutate(shared, parents[i])])
+            else:
+                st, kids = safe(lambda: list(rep.crossover(shared, parents[i], parents[(i + 1) % len(parents)])))
+            if st != "ok":
+                continue
+            for kid in kids:
+                safe(lambda: rep.genotype_to_phenotype(kid))
+            j = rng.randrange(len(parents))
+            st, p = safe(lambda: rep.genotype_to_phenotype(parents[j]))
+            now = repr(p) if st == "ok" else f"error:{p}"
+            h.seen(f"dsge-family:{trial}:{k}:{now[:40]}", nontrivial=st == "ok")
+            if now != first[j]:
+                h.fail("DynamicSGE.genotype_to_phenotype", "same-genotype-different-program",
+                       f"dynamic-SGE genotype #{j} gave {first[j][:100]} when it was first mapped and gives {now[:100]} after {k + 1} of its offspring "
+                       f"(mutants, crossover children) were made and mapped", [trial, k, j])
+                bad = True
+                break
+        h.count("dsge-families" + (":violated" if bad else ""))
+
+
 def grammar_events_scenario(h: Harness, rng):
     """the program of a genotype is determined by the genotype and the grammar as it IS: (1) after `Grammar.update_weights` changed
     the production weights, a representation built BEFORE the update maps a genotype to the same program as one built after it;
@@ -276,6 +319,7 @@ def run(h: Harness):
     decider_state_scenario(h, rng)
     persistent_handler_scenario(h, rng)
     short_lived_genotypes_scenario(h, rng)
+    dsge_family_scenario(h, rng)
     grammar_events_scenario(h, rng)
     C = gram.ClassSpec
     # fixed grammars with PLAIN float / str fields (drawn through the derived primitives of the gene-backed sources)
